@@ -69,6 +69,8 @@ func checkC05(p *Program, r *Result) {
 		"after which the next write to the sink, on every path, is the record the field designates (or the constant 0 where the spec allows it); " +
 		"(C05.c) each length (chunk length, message index length, group lengths, metadata index length) is the difference of the two snapshots that bracket exactly the designated writes, and the chunk index repeats the chunk header's sizes and times; " +
 		"(C05.d) in flushActiveChunk the compressor is closed and CRC, size and bytes are read before they are reset, chunk times are the running values or 0 for a message-less chunk, and per-chunk accumulators start fresh for the next chunk; " +
+		"(C05.m) a map or slice stored into an index record that is retained until Close is created in the same call, never a container the Writer reuses; " +
+		"(C05.r) the buffer flushActiveChunk reads the chunk bytes from is the one the compressors were built over (not replaced after construction unless every compressor's Reset re-targets); " +
 		"(C05.p) where an encoder writes a length prefix and then emits elements in a loop, the prefix is computed from the same element count as the loop emits (accessors inlined; counting loops compared by header and filter); " +
 		"(C05.e) every successful path of writeSummarySection that wrote records appended a summary offset (Close derives 'no summary' from an empty list)."
 	r.NotDecided = []string{"whole-file grammar; numeric exactness of offsets/lengths/times on concrete inputs"}
@@ -92,6 +94,10 @@ func checkC05(p *Program, r *Result) {
 	checkFlush(p, r)
 	checkSummaryOffsetsComplete(p, r, isSink)
 	checkWriteRecordCount(p, r)
+	r.rule("C05.m", "retained index records own their maps/slices", 1)
+	checkRetainedRecordsOwnContainers(p, r, "C05.m")
+	r.rule("C05.r", "the chunk buffer read at flush is the buffer the compressor writes into", 1)
+	checkChunkBufferIdentity(p, r, "C05.r")
 	r.rule("C05.p", "a length prefix is computed from the quantity the following loop emits", 2)
 	checkPrefixLoops(p, r, "C05.p", pkgMcap)
 }
